@@ -16,3 +16,4 @@ def run(ck):
     geometry.r2_raw_writers_bounded(ck, P, rows=False)
     prefetch.r11_tail_access_needs_remaining_count(ck, P, 'C19-R10')
     geometry.r9_clip_consulted_under_its_flag(ck, P, 'C19-R11')
+    status.r19_13_shortcut_needs_plain_destination(ck, P, 'C19-R13')
